@@ -449,10 +449,10 @@ struct Sig {
     toplevel_type_binding: bool, // F41: a statement-level chain bound to a type pattern: `'d<'t> = ...`
     self_default_pattern: bool, // F42: Type::SelfDefault inside a pattern
     name_then_paren: bool, // F43: a step ending in a bare tuple name followed by a step starting with `(`
-    select_then_tuple: bool, // F45: bare `!` directly followed by an anonymous tuple term
-    bodyless_fn_then_block: bool, // F46: a body-less function directly followed by a block (same chain or next step)
-    multi_hole: bool, // F47 (with trivia): a """ string with an interpolation hole
-    empty_select: bool, // F48: `! []`
+    select_then_tuple: bool, // F60: bare `!` directly followed by an anonymous tuple term
+    bodyless_fn_then_block: bool, // F61: a body-less function directly followed by a block (same chain or next step)
+    multi_hole: bool, // F62 (with trivia): a """ string with an interpolation hole
+    empty_select: bool, // F63: `! []`
     in_pattern: bool,
 }
 fn unprotected_space(c: char) -> bool {
@@ -551,6 +551,31 @@ fn term_contains_match(t: &Term) -> bool {
 fn chain_binds(c: &Chain) -> bool {
     c.match_pattern.is_some() || c.terms.iter().any(term_contains_match)
 }
+/// The term that ends up last / first once redundant-shaped blocks (one branch, no `=>`) are spliced away.
+fn last_through_blocks(t: &Term) -> &Term {
+    match t {
+        Term::Block(e) if e.branches.len() == 1 && e.branches[0].consequence.is_none() => e.branches[0]
+            .condition
+            .chains
+            .last()
+            .and_then(|c| c.terms.last())
+            .map_or(t, last_through_blocks),
+        _ => t,
+    }
+}
+fn first_through_blocks(t: &Term) -> &Term {
+    match t {
+        Term::Block(e)
+            if e.branches.len() == 1
+                && e.branches[0].consequence.is_none()
+                && e.branches[0].condition.chains.len() == 1
+                && e.branches[0].condition.chains[0].match_pattern.is_none() =>
+        {
+            e.branches[0].condition.chains[0].terms.first().map_or(t, first_through_blocks)
+        }
+        _ => t,
+    }
+}
 fn is_bodyless_function(t: &Term) -> bool {
     matches!(t, Term::Function(f) if f.body.is_none())
 }
@@ -608,12 +633,12 @@ fn sig_chain(c: &Chain, in_hole: bool, sig: &mut Sig) {
         sig_match(m, in_hole, sig);
     }
     for w in c.terms.windows(2) {
-        if matches!(&w[0], Term::Select(None, _))
-            && matches!(&w[1], Term::Tuple(t) if matches!(t.name, TupleName::Anonymous))
+        if matches!(last_through_blocks(&w[0]), Term::Select(None, _))
+            && matches!(first_through_blocks(&w[1]), Term::Tuple(t) if matches!(t.name, TupleName::Anonymous))
         {
             sig.select_then_tuple = true;
         }
-        if is_bodyless_function(&w[0]) && matches!(&w[1], Term::Block(_)) {
+        if is_bodyless_function(last_through_blocks(&w[0])) && matches!(&w[1], Term::Block(_)) {
             sig.bodyless_fn_then_block = true;
         }
     }
@@ -645,7 +670,7 @@ fn sig_steps(chains: &[Chain], sig: &mut Sig) {
         if ends_bare && chain_starts_with_paren(&w[1]) {
             sig.name_then_paren = true;
         }
-        if w[0].terms.last().is_some_and(is_bodyless_function)
+        if w[0].terms.last().is_some_and(|t| is_bodyless_function(last_through_blocks(t)))
             && w[1].match_pattern.is_none()
             && matches!(w[1].terms.first(), Some(Term::Block(_)))
         {
@@ -983,9 +1008,55 @@ fn e2e(src: &str, with_out: bool) -> String {
         }
         let hit = offs.iter().any(|o| {
             let ln = starts.partition_point(|s| s <= o) - 1;
-            lines.get(ln + 1).is_some_and(|next| next.trim_start().starts_with("~>"))
+            // ... before a `~>` continuation line
+            let before_cont = lines.get(ln + 1).is_some_and(|next| next.trim_start().starts_with("~>"));
+            // ... or right after the `=` of a binding whose value was moved to the next line
+            let code = lines[ln][..o - starts[ln]].trim_end();
+            let after_bind_eq = code.ends_with(" =") || code == "=";
+            before_cont || after_bind_eq
         });
-        if hit {
+        // ... or right after an opening `"""` (then it is swallowed by the string): text after an opening delimiter
+        let mut after_open = false;
+        {
+            let cs: Vec<char> = out1.chars().collect();
+            let (mut i, mut in_multi, mut in_single) = (0usize, false, false);
+            while i < cs.len() {
+                let c = cs[i];
+                if in_single {
+                    if c == '\\' {
+                        i += 1;
+                    } else if c == '"' {
+                        in_single = false;
+                    }
+                } else if in_multi {
+                    if c == '\\' {
+                        i += 1;
+                    } else if c == '"' && cs.get(i + 1) == Some(&'"') && cs.get(i + 2) == Some(&'"') {
+                        in_multi = false;
+                        i += 2;
+                    }
+                } else if c == '/' && cs.get(i + 1) == Some(&'/') {
+                    while i < cs.len() && cs[i] != '\n' {
+                        i += 1;
+                    }
+                } else if c == '"' && cs.get(i + 1) == Some(&'"') && cs.get(i + 2) == Some(&'"') {
+                    in_multi = true;
+                    i += 3;
+                    let mut j = i;
+                    while j < cs.len() && cs[j] != '\n' {
+                        if !cs[j].is_whitespace() {
+                            after_open = true;
+                        }
+                        j += 1;
+                    }
+                    continue;
+                } else if c == '"' {
+                    in_single = true;
+                }
+                i += 1;
+            }
+        }
+        if hit || after_open {
             sigs.push("out-comment-before-continuation");
         }
     }
@@ -1022,7 +1093,7 @@ fn e2e(src: &str, with_out: bool) -> String {
         let mut hit = false;
         for line in norm.split('\n') {
             let t = line.trim();
-            if prev_comment && t.starts_with("=>") {
+            if prev_comment && t.trim_start_matches(|c: char| c == '}' || c == ']' || c == ')' || c.is_whitespace()).starts_with("=>") {
                 hit = true;
             }
             if let Some(i) = line.find("//") {
